@@ -17,9 +17,12 @@
    messages into the shared BaseAsyncState, CanTransition = "at least [need] messages of my
    type are in the history".  Go's [select] over (receive buffer, onStateDone, ctx.Done) and the
    100 ms ticker are nondeterminism of the system: every enabled label may come next.
+   The second half of the file ("the bounded receive buffer") refines the message queue [abuf]
+   into what the code has: the handler registered on the broadcast channel does a BLOCKING send
+   into a channel of asyncReceiveBuffer slots, the loop pops one message at a time.
    No proofs here. *)
 From Coq Require Import ZArith NArith List Bool.
-From KV Require Import Common.Verdict.
+From KV Require Import Common.Verdict Gen.Consts_C15.
 Import ListNotations.
 Open Scope N_scope.
 
@@ -295,3 +298,209 @@ Inductive explanation :=
 Definition explain (c : case) : explanation :=
   let '(n, s) := accepted_prefix (c_types c) (c_prog c) init_state (c_events c) 0 in
   XTrace (length (c_events c)) n s (machine_owes (c_prog c) s) (spec_ok c).
+
+(* ================================================================== the bounded receive buffer
+   Execute:   recvChan := make(chan net.Message, asyncReceiveBuffer)
+              handler  := func(msg) { recvChan <- msg }          (blocks while the buffer is full)
+              loop:       case msg := <-recvChan: currentState.Receive(msg)
+   The logical queue [abuf] of the machine above is split, front to back, into
+     the message the loop has popped and not yet passed through Receive   ([nhand] = 0 or 1),
+     the contents of the Go channel                                        ([nchan] <= capacity),
+     the messages of producers still blocked in [recvChan <- msg]          (the rest, Go serves
+                                                                            blocked senders FIFO).
+   Labels: [LEv e] an event of the machine above ([EDeliver m true] = a producer calls the
+   handler with m; [MRecv] needs a popped message), and three labels that the event log of the
+   machine above does not show: [LEnq] the first blocked producer's message enters the channel
+   (only when there is room), [LPop] the loop takes the head of the channel, [LRet] a handler call
+   whose message entered the channel returns.  Nothing else touches the queue: no label drops. *)
+Inductive blabel := LEv (e : event) | LEnq | LPop | LRet.
+Record bstate := { core : astate; nhand : nat; nchan : nat; unret : nat }.
+Definition binit : bstate := {| core := init_state; nhand := 0; nchan := 0; unret := 0 |}.
+Definition is_running (m : mach) : bool := match m with Running => true | _ => false end.
+
+Definition bstep (cap : nat) (types : list N) (prog : program) (b : bstate) (l : blabel) : option bstate :=
+  match l with
+  | LEv (MRecv k m) =>
+      if Nat.eqb (nhand b) 1 then
+        match step types prog (core b) (MRecv k m) with
+        | Some c => Some {| core := c; nhand := 0; nchan := nchan b; unret := unret b |}
+        | None => None
+        end
+      else None
+  | LEv e =>
+      match step types prog (core b) e with
+      | Some c => Some {| core := c; nhand := nhand b; nchan := nchan b; unret := unret b |}
+      | None => None
+      end
+  | LEnq =>
+      if Nat.ltb (nhand b + nchan b) (length (abuf (core b))) && Nat.ltb (nchan b) cap
+      then Some {| core := core b; nhand := nhand b; nchan := S (nchan b); unret := S (unret b) |}
+      else None
+  | LPop =>
+      if Nat.eqb (nhand b) 0 && Nat.ltb 0 (nchan b) && is_running (mach_ (core b))
+      then Some {| core := core b; nhand := 1; nchan := pred (nchan b); unret := unret b |}
+      else None
+  | LRet =>
+      if Nat.ltb 0 (unret b)
+      then Some {| core := core b; nhand := nhand b; nchan := nchan b; unret := pred (unret b) |}
+      else None
+  end.
+
+Fixpoint brun_from (cap : nat) (types : list N) (prog : program) (b : bstate) (ls : list blabel)
+  : option bstate :=
+  match ls with
+  | [] => Some b
+  | l :: t => match bstep cap types prog b l with
+              | Some b' => brun_from cap types prog b' t
+              | None => None
+              end
+  end.
+Definition brun (cap : nat) (types : list N) (prog : program) (ls : list blabel) : option bstate :=
+  brun_from cap types prog binit ls.
+
+(* the three parts of the queue *)
+Definition inhand (b : bstate) : list msg := firstn (nhand b) (abuf (core b)).
+Definition inchan (b : bstate) : list msg := firstn (nchan b) (skipn (nhand b) (abuf (core b))).
+Definition blocked (b : bstate) : list msg := skipn (nhand b + nchan b) (abuf (core b)).
+
+(* what the event log of the machine above shows of a run with the buffer *)
+Definition erase (ls : list blabel) : list event :=
+  flat_map (fun l => match l with LEv e => [e] | _ => [] end) ls.
+Definition rets (ls : list blabel) : nat :=
+  length (filter (fun l => match l with LRet => true | _ => false end) ls).
+(* the order of handler returns (true) and completed Receive calls (false) *)
+Definition sched_of (ls : list blabel) : list bool :=
+  flat_map (fun l => match l with LRet => [true] | LEv (MRecv _ _) => [false] | _ => [] end) ls.
+
+(* a handler call returns only once its message is in the channel: with r returns and e
+   completed Receive calls before it, r + 1 <= e + 1 + capacity *)
+Fixpoint sched_ok_from (cap r e : nat) (s : list bool) : bool :=
+  match s with
+  | [] => true
+  | true :: t => Nat.leb (S r) (e + cap + 1) && sched_ok_from cap (S r) e t
+  | false :: t => sched_ok_from cap r (S e) t
+  end.
+Definition sched_ok (cap : nat) (s : list bool) : bool := sched_ok_from cap 0 0 s.
+
+(* ------------------------------------------------------------------ burst cases: a late member
+   whose Receive is slow while the group bursts more messages than the buffer holds.  The
+   observation is compact (run-length encoded): the order of the messages handed to the
+   registered handler, the order of the messages that passed Receive, the interleaving of handler
+   returns and completed Receive calls, the counters at the moment the producer was seen blocked
+   (or finished) with the slow Receive still held, the final histories and the outcome. *)
+Definition mrun := (N * N * N * bool)%type.          (* type, first id, count, valid *)
+Definition expand_run (r : mrun) : list msg :=
+  let '(ty, id0, cnt, v) := r in
+  map (fun i => {| mty := ty; mid := id0 + N.of_nat i; mvalid := v |}) (seq 0 (N.to_nat cnt)).
+Definition expand (rs : list mrun) : list msg := flat_map expand_run rs.
+Fixpoint expand_sched (b : bool) (l : list N) : list bool :=
+  match l with
+  | [] => []
+  | n :: t => repeat b (N.to_nat n) ++ expand_sched (negb b) t
+  end.
+Definition expand_ids (rs : list (N * N)) : list N :=
+  flat_map (fun r => map (fun i => fst r + N.of_nat i) (seq 0 (N.to_nat (snd r)))) rs.
+
+Fixpoint is_prefix (a b : list msg) : bool :=
+  match a, b with
+  | [], _ => true
+  | x :: a', y :: b' => msg_eqb x y && is_prefix a' b'
+  | _ :: _, [] => false
+  end.
+Fixpoint msgs_eqb (a b : list msg) : bool :=
+  match a, b with
+  | [], [] => true
+  | x :: a', y :: b' => msg_eqb x y && msgs_eqb a' b'
+  | _, _ => false
+  end.
+
+Record bcase := {
+  b_types : list N;
+  b_prog : program;
+  b_handed : list mrun;          (* every message a handler call was started with, in call order *)
+  b_received : list mrun;        (* the messages that passed Receive, in order *)
+  b_sched : list N;              (* run lengths: handler returns, completed Receives, returns, ... *)
+  b_rel : N * N;                 (* (handler returns, completed Receives) when the producer was seen
+                                    blocked or finished, the slow Receive still held *)
+  b_hist : list (list (N * N));  (* final GetAllReceivedMessages per type of b_types: (first id, count) runs *)
+  b_drained : bool;              (* every handler call had returned and the loop was seen idle *)
+  b_starved : bool;              (* then the machine was polling without the messages it needs *)
+  b_outcome : outcome }.
+
+Definition admitted_of (ms : list msg) : list msg := filter mvalid ms.
+Definition all_can (prog : program) (h : list msg) : bool :=
+  forallb (fun s => can_transition s h) prog.
+Definition no_errors (prog : program) : bool :=
+  forallb (fun s => negb (a_init_err s) && negb (a_next_err s)) prog.
+
+Fixpoint hist_ok (types : list N) (hs : list (list (N * N))) (h : list msg) : bool :=
+  match types, hs with
+  | [], [] => true
+  | ty :: types', x :: hs' => listN_eqb (expand_ids x) (of_type ty h) && hist_ok types' hs' h
+  | _, _ => false
+  end.
+
+(* the property on a burst observation: Receive saw a prefix of what was handed over, in order,
+   nothing skipped or repeated; once every call returned and the loop went idle it saw all of it;
+   no handler call returned before its message had room; the shared history holds every admitted
+   message; the machine ended in the final state (all conditions met by the history) or by a
+   cancellation *)
+Definition bspec_ok_cap (cap : nat) (c : bcase) : bool :=
+  let H := expand (b_handed c) in
+  let R := expand (b_received c) in
+  is_prefix R H
+  && (if b_drained c then Nat.eqb (length R) (length H) else true)
+  && sched_ok cap (expand_sched true (b_sched c))
+  && hist_ok (b_types c) (b_hist c) (admitted_of R)
+  && match b_outcome c with
+     | AFinal k => Nat.eqb (S k) (length (b_prog c)) && all_can (b_prog c) (admitted_of R)
+     | ACancelled => true
+     | AErrInit k => a_init_err (nth_ast (b_prog c) k)
+     | AErrNext k => a_next_err (nth_ast (b_prog c) k)
+     end.
+
+(* the model's own account of a burst schedule (programs without failing states): the producer
+   gets exactly as far as the buffer allows while Receive is held, everything handed over
+   arrives, and the machine ends in the final state iff the admitted messages meet every
+   state's condition *)
+Definition bagree_cap (cap : nat) (c : bcase) : bool :=
+  let H := expand (b_handed c) in
+  let R := expand (b_received c) in
+  let enough := all_can (b_prog c) (admitted_of H) in
+  msgs_eqb R H        (* also when Execute returned before the loop was seen idle: the last state needs the last message *)
+  && (N.to_nat (fst (b_rel c)) =? Nat.min (length H) (N.to_nat (snd (b_rel c)) + cap + 1))%nat
+  && Bool.eqb (b_starved c) (negb enough)
+  && outcome_eqb (b_outcome c)
+       (if enough then AFinal (pred (length (b_prog c))) else ACancelled).
+
+Definition buffer_capacity : nat := Z.to_nat asyncReceiveBuffer.
+
+Definition bjudge (c : bcase) : verdict :=
+  if is_nil (b_prog c) || negb (no_errors (b_prog c)) || (buffer_capacity =? 0)%nat then BadCase
+  else decide (bspec_ok_cap buffer_capacity c) (bagree_cap buffer_capacity c).
+
+Fixpoint first_diff (a b : list msg) (i : nat) : option nat :=
+  match a, b with
+  | [], [] => None
+  | x :: a', y :: b' => if msg_eqb x y then first_diff a' b' (S i) else Some i
+  | _, _ => Some i
+  end.
+Inductive bexplanation :=
+  XBurst (capacity handed received : nat) (first_difference : option nat)
+         (returns_expected_while_held : nat) (conditions_met_by_handed : bool)
+         (expected_outcome : outcome) (spec : bool).
+Definition bexplain (c : bcase) : bexplanation :=
+  let H := expand (b_handed c) in
+  let R := expand (b_received c) in
+  let enough := all_can (b_prog c) (admitted_of H) in
+  XBurst buffer_capacity (length H) (length R) (first_diff R H 0)
+         (Nat.min (length H) (N.to_nat (snd (b_rel c)) + buffer_capacity + 1)) enough
+         (if enough then AFinal (pred (length (b_prog c))) else ACancelled)
+         (bspec_ok_cap buffer_capacity c).
+
+(* ------------------------------------------------------------------ what the driver emits *)
+Inductive anycase := CLog (c : case) | CBurst (b : bcase).
+Definition judge_any (a : anycase) : verdict :=
+  match a with CLog c => judge c | CBurst b => bjudge b end.
+Definition explain_any (a : anycase) : explanation + bexplanation :=
+  match a with CLog c => inl (explain c) | CBurst b => inr (bexplain b) end.
